@@ -399,3 +399,44 @@ def _range_cases():
 @contract("pendulum.interval.Interval.range", props=["C19"])
 class interval_range:
     cases = _range_cases()
+
+
+# ------------------------------------------------------------------------------- membership (C19)
+def _contains_cases():
+    """`x in interval` <=> start <= x <= end, for an item of the endpoints' own kind (Date / naive / one fixed offset / one zone
+    object: CPython compares two datetimes of one tzinfo object on their wall clocks, which on a transition-free clock is the
+    order of instants; for one *named* zone object inside a repeated hour that is known finding C11-same-tz-order, so the
+    same-zone case is not claimed here)"""
+    out = {}
+    for kname, mk in endpoint_kinds().items():
+        if kname in ("two_zones", "same_zone"):
+            continue
+
+        class case:
+            def applies(self, item):
+                return False  # verified, not used at call sites
+
+            def args(F, _mk=mk, _k=kname):
+                iv, cs = fresh_interval(F, _mk)
+                s = iv._start
+                if has_time(s):
+                    item, v = fresh_pdt(F, s.tzinfo, "item")
+                else:
+                    item, v = stdlib.fresh_date(F, s.cls, "item")
+                return dict(self=iv, item=item), cs + [v]
+
+            def result(F, self, item):
+                raise NotImplementedError
+
+            def ensures(result, self, item):
+                inside = And(le(pos(self._start), pos(item)), le(pos(item), pos(self._end)))
+                return [("returns_a_bool", sym.is_boollike(result) if hasattr(sym, "is_boollike") else True),
+                        ("contained_iff_between_start_and_end_inclusive", eq(result, inside))]
+
+        out[kname] = case
+    return out
+
+
+@contract("pendulum.interval.Interval.__contains__", props=["C19"])
+class interval_contains:
+    cases = _contains_cases()
